@@ -69,6 +69,7 @@ RULE_GROUPS: Dict[str, Callable] = {
     'bd.annotation_check_semantics': bd.rule_annotation_check_semantics,
     'st.ready_vs_active_subgraph': st.rule_ready_vs_active_subgraph,
     'st.kwargs_hidden_verdict': st.rule_kwargs_hidden_verdict,
+    'st.ready_covers_delivered_inputs': st.rule_ready_covers_delivered_inputs,
     'hx.cancelled_execution': hx.rule_cancelled_execution,
     'hx.stored_failure_not_a_value': hx.rule_stored_failure_not_a_value,
     'hx.reserved_parameter_names': hx.rule_reserved_parameter_names,
@@ -83,6 +84,7 @@ RULE_GROUPS: Dict[str, Callable] = {
     'hx.order_vs_dependencies': hx.rule_order_vs_dependencies,
     'oo.oneof_sequential': oo.rule_oneof_sequential,
     'oo.oneof_exhaustion': oo.rule_oneof_exhaustion,
+    'oo.candidate_started_lazily': oo.rule_candidate_started_lazily,
     'oo.flag_propagation': oo.rule_flag_propagation,
     'oo.error_gate': oo.rule_error_gate,
     'oo.recurrent_loop': oo.rule_recurrent_loop,
@@ -111,6 +113,8 @@ RULE_GROUPS: Dict[str, Callable] = {
     'vw.schema': vw.rule_schema,
     'vw.types': vw.rule_types,
     'vw.source_and_ids': vw.rule_source_and_ids,
+    'vw.type_table': vw.rule_type_table,
+    'vw.generate_total': vw.rule_generate_total,
     'hy.context_propagated': hy.rule_context_propagated,
     'hy.pool_replaceable': hy.rule_pool_replaceable,
     'hy.fork_context': hy.rule_fork_context,
@@ -183,16 +187,23 @@ RULES: Dict[str, Tuple[str, str]] = {
     'EX-9': ('hy.pool_replaceable', 'a pool that is_ready() rejects can be replaced by registering a new one'),
     'EX-10': ('hy.fork_context', 'the process pool created by the engine does not fork its multi-threaded process'),
     'FS-6': ('hy.path_components', 'every free-text part of an artifact key is sanitised before it is joined to a path'),
+    'AS-6': ('fs.saves', 'the save is reached for every final value (None, falsy, truthy)'),
     'AS-5': ('hy.save_survives_run_exit', 'the save of a published value is not cancellable by the end of the run'),
     'CC-9': ('hy.no_path_enumeration', 'no exponential path enumeration on the run path'),
     'CC-10': ('hy.user_code_off_loop', 'constructor and get_default of a pool-mode node do not run on the event-loop thread'),
     'CC-11': ('hy.user_code_off_loop', 'no execution mode runs a body synchronously inside the node\'s task'),
     'ER-8': ('lk.spawn_registered', 'the registry scanned for the first error iterates in creation order, not in hash order'),
+    'VW-10': ('vw.generate_total', 'generate() yields one entry per node and per edge, is idempotent and leaves the DAG untouched'),
+    'VW-9': ('vw.type_table', 'the node-type table covers every type that occurs on a node entry'),
     'VW-7': ('vw.source_and_ids', 'the source link of a generic node follows the chain of generic classes to the class that has a source'),
     'VW-8': ('vw.source_and_ids', 'the edge id is an injective function of (source, target)'),
     'VL-8': ('bw.defects_rejected', 'a value named by a mark or by the caller is class-checked before its id is computed or it is registered'),
     'VL-9': ('bw.defects_rejected', 'every path of build() (traversal, single node, input = output) rejects a defective node with the specific error'),
     'VL-10': ('bw.defects_rejected', 'declaration sets free of defects build, one per mark kind'),
+    'OO-10': ('oo.candidate_started_lazily', 'a one-of candidate is recorded as started only in the iteration of the candidate loop that starts it'),
+    'RD-9': ('st.ready_covers_delivered_inputs', 'in a plain scope readiness waits for every predecessor that delivers a parameter, also outside the sub-dag being run'),
+    'SH-9': ('sh.memoisation', 'a memoised method of the run manager reads no run state (node storage)'),
+    'SH-8': ('bw.translation', 'the chart description built by the builder holds no one-shot iterator'),
     'BD-9': ('bw.translation', 'the graph built for one mark of each kind equals the declared relation (nodes, edges, attributes, node map)'),
     'BD-10': ('bw.merges', 'two declared node classes with the same node id are not merged silently'),
     'BD-11': ('bw.merges', 'two switch parameters with the same free-text name are not merged silently'),
@@ -617,16 +628,21 @@ _add('C08', 'SH-6')
 _add('C04', 'ON-6')
 _add('C19', 'ON-6')
 _add('C16', 'VL-8', 'VL-9', 'VL-10', 'BD-12', 'BN-3')
-_add('C15', 'BD-9', 'BD-10', 'BD-11', 'BD-12', 'BN-3')
+_add('C15', 'BD-9', 'BD-10', 'BD-11', 'BD-12', 'BN-3', 'SH-8')
 _add('C17', 'BN-1', 'EX-7')
-_add('C07', 'ER-8', 'EX-9')
-_add('C08', 'EX-9', 'EX-10')
+_add('C07', 'ER-8', 'EX-9', 'SH-8')
+_add('C10', 'SH-8', 'OO-10')
+_add('C03', 'SH-9', 'RD-9')
+_add('C09', 'SH-9')
+_add('C11', 'SH-9')
+_add('C05', 'RT-2', 'RT-5', 'RT-6')
+_add('C08', 'EX-9', 'EX-10', 'SH-8')
 _add('C17', 'EX-8', 'EX-9', 'EX-10')
 _add('C18', 'FS-6')
-_add('C19', 'AS-5')
+_add('C19', 'AS-5', 'AS-6')
 _add('C06', 'CC-9', 'CC-10', 'CC-11')
 _add('C05', 'ER-8')
-_add('C20', 'BN-2', 'VW-7', 'VW-8')
+_add('C20', 'BN-2', 'VW-7', 'VW-8', 'VW-9', 'VW-10')
 
 
 def _also(pid, text):
